@@ -229,6 +229,21 @@ CHECKS = {
         "run(ms) slice boundaries are sampled under load, not controlled. Euler seed-independence is asserted "
         "for the pass-through processing modes only (an explicitly requested random resampling of the "
         "initial state is seeded by design)."),
+    "C07": (
+        "Hypothesis generation of stochastic runs sampled at every iteration; per-step legality against "
+        "reference propensities; martingale z-tests (waiting times, event-class frequencies, tau-leap "
+        "increments, combinatorial factors)",
+        "Exploration. Every step of generated Gillespie trajectories (orders 0..3, repeated reactants, "
+        "per-environment constants incl. zeros, all boundary mixes incl. periodic axes of length 1/2, "
+        "multigraphs, chemostat maps) must be the chemostat-masked effect of one channel whose independently "
+        "computed propensity is positive, with non-negative integer states, strictly increasing time and "
+        "termination exactly at zero total propensity; rates are decided statistically: sum a0 dt against "
+        "Gamma(N,1), per-class event counts against their martingale variance, tau-leap increments of linear "
+        "functionals for mean and Poisson dispersion, and a dedicated family at n..n+6 molecules where the "
+        "falling-factorial factor dominates (150 seeds per case).",
+        "|z| < 7 per test; runs are pure functions of generated seeds. The rate facets use mass-balanced "
+        "networks without chemostats so that fixed-step runs stay bounded; runs with active null channels "
+        "are excluded from the rate statistics. Deviations below ~7/sqrt(N) are below the tests' power."),
 }
 
 NOT_BUILT = "check not built yet in this working session (planned; DESIGN.md section 4)"
